@@ -175,7 +175,32 @@ class _Violation(Exception):
     pass
 
 
+def cleanup_scratch():
+    """Removes the per-process scratch directories (.work/<name>-<pid>[-...]) the check modules create on demand."""
+    import glob
+    import shutil
+    base = os.path.join(HOME, ".work")
+    pid = os.getpid()
+    for d in glob.glob(os.path.join(base, f"*-{pid}")) + glob.glob(os.path.join(base, f"*-{pid}-*")):
+        if os.path.isdir(d):
+            shutil.rmtree(d, ignore_errors=True)
+
+
 def hypothesis_worker(args):
+    try:
+        return _hypothesis_worker(args)
+    finally:
+        cleanup_scratch()
+
+
+def generic_worker(args):
+    try:
+        return _generic_worker(args)
+    finally:
+        cleanup_scratch()
+
+
+def _hypothesis_worker(args):
     modname, tier, seed, shard, n_examples, budget_s, shrink_s = args
     try:
         prepare_process()
@@ -250,7 +275,7 @@ def hypothesis_worker(args):
                 "harness": {"spec": None, "traceback": traceback.format_exc()}}
 
 
-def generic_worker(args):
+def _generic_worker(args):
     """Worker for non-Hypothesis parts (exhaustive enumerations): mod.<func>(tier, seed, shard, nshards)
     returns (Stats-json-like dict, violation or None)."""
     modname, func, tier, seed, shard, nshards = args
@@ -296,6 +321,8 @@ def replay_one(mod, spec, supp):
 
 
 def main(argv=None):
+    import atexit
+    atexit.register(cleanup_scratch)
     ap = argparse.ArgumentParser()
     ap.add_argument("id")
     ap.add_argument("--tier", default=os.environ.get("VERIF_TIER", "quick"), choices=["quick", "thorough"])
